@@ -2,6 +2,7 @@
 from engines import dirsim
 PROPERTY = "C21"
 ENGINE = "dirsim"
+SPIN_IS_VIOLATION = True   # the property promises an outcome: an operation that never returns to the reactor violates it
 LEVEL = "exploration"
 COUNTS = {"quick": 320, "thorough": 6000}
 CHUNK = 10
